@@ -454,6 +454,7 @@ class Tensor:
 
   # ---------------------------------------------------------------- methods
   def reshape(self, *shape, **kw):
+    _no_kw("reshape", kw)
     if len(shape) == 1 and isinstance(shape[0], (list, tuple)):
       shape = shape[0]
     return reshape(self, shape)
@@ -1720,19 +1721,56 @@ def _reduce(kind, x, axis, keepdims=False):
   return t
 
 
+def _no_kw(fn, kw, allowed=()):
+  """Library contracts model the arguments they name; anything else must not be silently ignored."""
+  bad = [k for k, v in kw.items() if k not in allowed and v is not None]
+  if bad:
+    raise Unsupported(f"{fn}: keyword argument(s) {bad} are not modelled")
+
+
+def _masked(kind, x, kw):
+  """where= / initial= of the NumPy reductions: masked-out entries contribute `initial` (the identity)."""
+  where_, initial = kw.get("where"), kw.get("initial")
+  x = asarray(x)
+  if where_ is None and initial is None:
+    return x, None
+  if where_ is not None:
+    if initial is None:
+      if kind == "sum":
+        initial = 0
+      elif kind == "prod":
+        initial = 1
+      else:
+        raise ValueError(f"reduction operation {kind} does not have an identity, so to use a where mask one has to specify 'initial'")
+    x = where(where_, x, initial)
+  return x, initial
+
+
 def rmax(x, axis=None, keepdims=False, **kw):
-  return _reduce("max", x, axis, keepdims)
+  _no_kw("max", kw, ("where", "initial"))
+  x, init = _masked("max", x, kw)
+  r = _reduce("max", x, axis, keepdims)
+  return r if init is None else ew(lambda v: OPS.maximum(v, init), r)
 
 
 def rmin(x, axis=None, keepdims=False, **kw):
-  return _reduce("min", x, axis, keepdims)
+  _no_kw("min", kw, ("where", "initial"))
+  x, init = _masked("min", x, kw)
+  r = _reduce("min", x, axis, keepdims)
+  return r if init is None else ew(lambda v: OPS.minimum(v, init), r)
 
 
 def rsum(x, axis=None, keepdims=False, **kw):
-  return _reduce("sum", x, axis, keepdims)
+  _no_kw("sum", kw, ("where", "initial", "dtype"))
+  x, init = _masked("sum", x, kw)
+  if kw.get("dtype") is not None:
+    x = asarray(x).astype(kw["dtype"])
+  r = _reduce("sum", x, axis, keepdims)
+  return r if init is None or (isinstance(init, (int, float)) and init == 0) else r + init
 
 
 def rmean(x, axis=None, keepdims=False, **kw):
+  _no_kw("mean", kw)
   x = asarray(x)
   axes = list(range(x.ndim)) if axis is None else ([axis] if not isinstance(axis, (list, tuple)) else list(axis))
   axes = [_norm_axis(a, x.ndim) for a in axes]
@@ -1742,14 +1780,17 @@ def rmean(x, axis=None, keepdims=False, **kw):
 
 
 def rprod(x, axis=None, keepdims=False, **kw):
+  _no_kw("prod", kw)
   return _reduce("prod", x, axis, keepdims)
 
 
 def rall(x, axis=None, **kw):
+  _no_kw("all", kw)
   return _reduce("all", x, axis)
 
 
 def rany(x, axis=None, **kw):
+  _no_kw("any", kw)
   return _reduce("any", x, axis)
 
 
